@@ -402,10 +402,11 @@ def check_odp_tables():
 
 
 def check_odp_slide():
+    import itertools
     OP = _mod("open_office.odp_extractor")
     f = _resolve(OP, "_extract_slide", 4, ["body_text", "other_text"])
     r = Result()
-    for case, page in TR.gen_odp_pages():
+    for case, page in itertools.chain(TR.gen_odp_pages(), TR.gen_odp_shape_pages()):
         if f:
             slide, _n = f(None, to_et(page), 1)
             out = slide.text_combined
